@@ -188,7 +188,10 @@ class PtnFilterChord(PtnFilter):
             A boolean on filter result
         """
 
-        return data not in self.ar if self.invert_filter else data in self.ar
+        # `data in self.ar` is numpy's element-wise any(); a chord sequence passes only
+        # when it equals a whole row of the filter
+        hit = bool((self.ar == data).all(axis=1).any())
+        return not hit if self.invert_filter else hit
 
     class Option:
         """The methods available to use in fromChord
